@@ -9,7 +9,7 @@ func init() {
 		Redirects: map[string]string{
 			interpPath + ".genGlobalVars": "vmGenGlobalVarsFail",
 			"(*" + interpPath + ".node).cfgErrorf": "vmRuleErrorf",
-			interpPath + ".vhGoAcceptsBinary": "vmGoAcceptsBinary", interpPath + ".vhGoAcceptsUnary": "vmGoAcceptsUnary", interpPath + ".vhGoAcceptsAssign": "vmGoAcceptsAssign", interpPath + ".vhGoAcceptsConst": "vmGoAcceptsConst",
+			interpPath + ".vhGoAcceptsBinary": "vmGoAcceptsBinary", interpPath + ".vhGoAcceptsUnary": "vmGoAcceptsUnary", interpPath + ".vhGoAcceptsAssign": "vmGoAcceptsAssign", interpPath + ".vhGoAcceptsConst": "vmGoAcceptsConst", interpPath + ".vhGoAcceptsAssignConst": "vmGoAcceptsAssignConst",
 			ip + "parse": "vmParse", ip + "ast": "vmAst", ip + "gtaRetry": "vmGtaRetry", ip + "cfg": "vmCfg", ip + "Execute": "vmExecute",
 		},
 		Obligs: func(tier string) []Oblig {
@@ -17,7 +17,7 @@ func init() {
 				{Harness: "vh_C12_eval", Unroll: 8, KeepRedirects: []string{"vmParse", "vmAst", "vmGtaRetry", "vmCfg", "vmExecute"}},
 				{Harness: "vh_C12_execute", Unroll: 8, KeepRedirects: []string{"vmGenGlobalVarsFail"}},
 			}
-			rules := []string{"vmRuleErrorf", "vmGoAcceptsBinary", "vmGoAcceptsUnary", "vmGoAcceptsAssign", "vmGoAcceptsConst"}
+			rules := []string{"vmRuleErrorf", "vmGoAcceptsBinary", "vmGoAcceptsUnary", "vmGoAcceptsAssign", "vmGoAcceptsConst", "vmGoAcceptsAssignConst"}
 			for op := 0; op < 19; op++ {
 				r = append(r, Oblig{Harness: "vh_C12_binary", Unroll: 24, KeepRedirects: rules, Globals: map[string]int{"vhRuleOp": op}})
 			}
@@ -25,6 +25,9 @@ func init() {
 				r = append(r, Oblig{Harness: "vh_C12_unary", Unroll: 24, KeepRedirects: rules, Globals: map[string]int{"vhRuleOp": op}})
 			}
 			r = append(r, Oblig{Harness: "vh_C12_assign", Unroll: 24, KeepRedirects: rules})
+			for ck := 0; ck <= 2; ck++ {
+				r = append(r, Oblig{Harness: "vh_C12_assignconst", Unroll: 24, KeepRedirects: rules, Globals: map[string]int{"vhConstKind": ck}})
+			}
 			for op := 0; op < 19; op++ {
 				for ck := 0; ck <= 2; ck++ {
 					for left := 0; left <= 1; left++ {
